@@ -387,8 +387,11 @@ func (run *c07Run) all(r *Rng) {
 				if err != nil {
 					return "", err
 				}
+				// a zero-length measurement is rendered like an absent one: whether the Go value is nil or empty
+				// depends on how the endorsement message was built (an empty bytes map value decodes to nil), and
+				// both mean "no measurement pinned" to every reader of the policy
 				m := "nil"
-				if p.Measurement != nil {
+				if len(p.Measurement) != 0 {
 					m = in.cb(p.Measurement)
 				}
 				lastLen := func(ks [][]byte) int {
